@@ -97,7 +97,7 @@ def run_scenario(scenario, seed, monitors=(), trace=False, settle=None, worker_h
                 sfx = "-qq" if (scenario.get("config") or {}).get("queue_type") == "quorum" else ""
                 body = json.dumps({"data": ex["input"], "context": {"StateMachine": {"Id": sm},
                                                                      "Execution": {"Name": ex["name"]}}})
-                mid = None if via == "raw-noid" else "raw-%d-%s" % (i, ex["name"])
+                mid = None if via == "raw-noid" else ex.get("mid", "raw-%d-%s" % (i, ex["name"]))
                 sim.broker.basic_publish(res._rawch.rec, "", "asl_workflow_events" + sfx, body.encode(),
                                          Props(content_type="application/json", message_id=mid, delivery_mode=2))
                 parts = sm.split(":")
